@@ -224,6 +224,7 @@ class Machine:
         self.timer = None     # modelled ThreadTimer state
         self.stop_countdown = -1
         self.obs_count = 0
+        self.post_hooks = {}
         self.depth = 0
         self.max_depth = 3000
         self._resolve_cache = {}
@@ -452,6 +453,7 @@ class Machine:
         self.timer = None
         self.stop_countdown = -1
         self.obs_count = 0
+        self.post_hooks = {}
         self.concrete_inputs = concrete_inputs
         if concrete_inputs is not None:
             # concrete re-run: only structural decisions are replayed
@@ -538,9 +540,13 @@ class Machine:
         if self.depth > self.max_depth:
             raise StepLimit('call depth')
         try:
-            return self._run(func, args)
+            ret = self._run(func, args)
         finally:
             self.depth -= 1
+        if self.post_hooks:
+            h = self.post_hooks.get(func.name.split('::')[-1])
+            if h is not None: h(self, func, args, ret)
+        return ret
 
     def _run(self, func, args):
         frame = {-1: func}
